@@ -7,6 +7,7 @@
 #include "pv_model.hpp"
 #include "pv_container.hpp"
 #include "pv_algebra.hpp"
+#include "pv_workflow.hpp"
 #include <boost/mpi.hpp>
 #include <fstream>
 
@@ -46,6 +47,7 @@ int main(int argc, char** argv) {
         else if (kind == "container4") pv::run_container(sc);
         else if (kind == "algebra") pv::run_algebra(sc);
         else if (kind == "nsz") pv::run_nsz(sc);
+        else if (kind == "workflow") pv::run_workflow(sc);
         else pv::emit({{"e", "Error"}, {"id", sc.value("id", json())}, {"what", "unknown kind"}});
         pv::emit({{"e", "Done"}, {"id", sc.value("id", json())}});
     }
